@@ -16,16 +16,17 @@ Trace == ndJsonDeserialize("trace.ndjson")
 VARIABLES l, floor, mem
 tvars == <<vars, l, floor, mem>>
 
-\* only rlog, pub (and blocked) carry recorded data in this pass
+\* only rlog, pub, first (and blocked) carry recorded data in this pass; first = FirstIndex()
+\* of the real Raft log store of the server under test (its last value while it is down)
 Dummies ==
-  /\ up' = up /\ lp' = lp /\ rs' = rs /\ snap' = snap /\ first' = first
+  /\ up' = up /\ lp' = lp /\ rs' = rs /\ snap' = snap
   /\ ctl' = ctl /\ disp' = disp /\ dead' = dead
 
 TraceInit ==
   LET e == Trace[1] IN
   /\ rlog = e.st.rlog /\ pub = e.st.pub /\ blocked = e.st.blocked
   /\ up = [n \in Nodes |-> TRUE] /\ lp = [n \in Nodes |-> 0] /\ rs = [n \in Nodes |-> 0]
-  /\ snap = [n \in Nodes |-> 0] /\ first = [n \in Nodes |-> 1]
+  /\ snap = [n \in Nodes |-> 0] /\ first = [n \in Nodes |-> e.st.first]
   /\ ctl = None /\ disp = [n \in Nodes |-> Off] /\ dead = {}
   /\ floor = 0
   /\ mem = [lp |-> e.st.lp, up |-> e.st.up, leader |-> e.st.leader, disps |-> e.st.dispatchers, ack |-> e.st.ack]
@@ -59,6 +60,14 @@ T_IdleMeansPublished ==
 \* policy at the server's default and records the effective value.
 T_PublishMeansCommitted == mem.up => A_DurablePublish(mem.ack)
 
+\* The dispatcher goroutine of the real server PANICKED (the process died: the line is
+\* written from the process's panic report - message and stack of the panicking goroutine,
+\* which runs the dispatcher function - with the state recorded last).  Not during a stop
+\* of the server (shutdown races are not C18's).  A controller whose dispatcher dies with
+\* the process lists nothing; the cases met (an entry it has to read is gone from the log
+\* store) repeat on every restart.
+T_DispatcherSurvives == ~(l > 1 /\ Trace[l - 1].a = "DispatcherPanic")
+
 \* the lowest replicated lastPublished a dispatcher that may still publish can
 \* have started from: on one server the value before the step; with several
 \* servers the value before the last controller change (the previous
@@ -73,6 +82,7 @@ TraceNext ==
   /\ l' = l + 1
   /\ LET e == Trace[l] IN
      /\ rlog' = e.st.rlog /\ pub' = e.st.pub /\ blocked' = e.st.blocked
+     /\ first' = [n \in Nodes |-> e.st.first]
      /\ mem' = [lp |-> e.st.lp, up |-> e.st.up, leader |-> e.st.leader, disps |-> e.st.dispatchers, ack |-> e.st.ack]
      /\ Dummies
      /\ floor' = NextFloor(e)
@@ -87,6 +97,8 @@ TraceNext ==
      /\ Chk(T_ControllerDispatches', "P", e, "C18_ControllerDispatches")
      /\ Chk(T_IdleMeansPublished', "P", e, "C18_IdleMeansPublished")
      /\ Chk(T_PublishMeansCommitted', "P", e, "C18_PublishMeansCommitted")
+     /\ Chk(C18_Obtainable', "P", e, "C18_Obtainable")
+     /\ Chk(T_DispatcherSurvives', "P", e, "C18_DispatcherSurvives")
      /\ Chk(I_RecordsArePublished', "I", e, "I_RecordsArePublished")
      /\ Chk(TypeOK', "I", e, "TypeOK")
 
